@@ -390,6 +390,10 @@ RULES = [
     Rule('C20.P2', 'the exact rounding split / modf / frexp return through refuses only when digits would be lost (= C01.P3, RealFloat._round_at)', lambda ctx: __import__('sa.props.c01', fromlist=['p3_inexact']).p3_inexact(ctx), 12, 'P'),
     Rule('C20.L4', 'the exact engine answers add / sub / mul / fma / neg for every operand (what the ideal variants evaluate under REAL)', l4_exact_engine_answers, 5, 'L'),
     Rule('C20.P1', 'split / modf / frexp return only exactly rounded parts', p1_exact_returns, 20, 'P'),
+    # "rounded once": the exact product / sum the ideal variants and ldexp hand to the context is rounded through the
+    # round-to-odd wrapper, for a precision as for a digit position (fixed-point contexts)
+    Rule('C20.F1', 'the one rounding of an exact result keeps the digits it needs, for a precision and for a digit position (= C02.F1, mpfr_call)',
+         lambda ctx: __import__('sa.props.engine_rules', fromlist=['f1_round_to_odd']).f1_round_to_odd(ctx), 12, 'F'),
 ]
 
 from ..selftest import Mutant  # noqa: E402
